@@ -734,3 +734,428 @@ Proof.
   - intros q. rewrite Est. simpl. rewrite !cnt_get_add.
     destruct (Z.eqb_spec q p1), (Z.eqb_spec q p0), (Z.eqb_spec p1 p0); subst; try congruence; lia.
 Qed.
+
+(** ** Admission: why CheckTx gives the premise *)
+Lemma uniq_from_app a : forall pd b,
+  uniq_from pd (a ++ b) <-> uniq_from pd a /\ uniq_from (fold_left pend_step a pd) b.
+Proof.
+  induction a as [|o a IH]; intros pd b; simpl; [tauto|]. rewrite IH. tauto.
+Qed.
+
+Lemma pending_snoc ops o : pending (ops ++ [o]) = pend_step (pending ops) o.
+Proof. unfold pending. now rewrite fold_left_app. Qed.
+
+Lemma unique_snoc ops o :
+  unique_sender_nonce ops ->
+  match o with Insert s n _ => ~ In (s, n) (map tx_sn (pending ops)) | _ => True end ->
+  unique_sender_nonce (ops ++ [o]).
+Proof.
+  intros Hu Ho. unfold unique_sender_nonce. apply uniq_from_app. split; [exact Hu|]. simpl. split; [exact Ho|exact I].
+Qed.
+
+Definition adm_ok (pre : list adm) : Prop :=
+  unique_sender_nonce (adm_ops pre) /\
+  forall t, In t (pending (adm_ops pre)) -> tx_nonce t < seq_get (tx_sender t) (fst (adm_run pre)).
+
+Lemma adm_run_snoc pre a : adm_run (pre ++ [a]) = adm_step (adm_run pre) a.
+Proof. unfold adm_run. now rewrite fold_left_app. Qed.
+
+Lemma seq_get_aset s v m x : seq_get x (aset Z.eqb s v m) = if x =? s then v else seq_get x m.
+Proof.
+  unfold seq_get. destruct (Z.eqb_spec x s) as [->|Hne].
+  - now rewrite (aget_aset_same Z.eqb Z.eqb_spec).
+  - now rewrite (aget_aset_other Z.eqb Z.eqb_spec) by assumption.
+Qed.
+
+Lemma adm_ok_step pre a :
+  adm_ok pre ->
+  match a with
+  | AdmReset f => forall t, In t (pending (adm_ops pre)) -> tx_nonce t < seq_get (tx_sender t) f
+  | _ => True
+  end ->
+  adm_ok (pre ++ [a]).
+Proof.
+  intros [Hu Hlt] Ha. unfold adm_ok, adm_ops in *. rewrite adm_run_snoc.
+  destruct (adm_run pre) as [chk ops] eqn:E. cbn [fst snd] in *.
+  destruct a as [s n p|s n| |f]; cbn [adm_step].
+  - destruct (Z.eqb_spec n (seq_get s chk)) as [En|Hne]; cbn [fst snd]; [|split; assumption].
+    split.
+    + apply unique_snoc; [assumption|]. intros Hin. apply in_map_iff in Hin. destruct Hin as [[[s' n'] q] [Et Ht]].
+      unfold tx_sn in Et; simpl in Et. inversion Et; subst s' n'. specialize (Hlt _ Ht).
+      unfold tx_nonce, tx_sender in Hlt; simpl in Hlt. lia.
+    + intros t Ht. rewrite pending_snoc in Ht. simpl in Ht. rewrite seq_get_aset.
+      apply in_app_or in Ht. destruct Ht as [Ht|[<-|[]]].
+      * specialize (Hlt _ Ht). destruct (Z.eqb_spec (tx_sender t) s) as [Es|]; [rewrite Es in Hlt; lia|assumption].
+      * unfold tx_sender, tx_nonce; simpl. rewrite Z.eqb_refl. lia.
+  - cbn [fst snd]. split; [now apply unique_snoc|].
+    intros t Ht. rewrite pending_snoc in Ht. simpl in Ht. apply filter_In in Ht. now apply Hlt.
+  - cbn [fst snd]. split; [now apply unique_snoc|].
+    intros t Ht. rewrite pending_snoc in Ht. simpl in Ht. now apply Hlt.
+  - cbn [fst snd]. split; [assumption|exact Ha].
+Qed.
+
+Lemma adm_ok_app l : forall pre, adm_ok pre -> resets_above_pending pre l -> adm_ok (pre ++ l).
+Proof.
+  induction l as [|a l IH]; intros pre Hok Hr; [now rewrite app_nil_r|].
+  destruct Hr as [Ha Hr]. replace (pre ++ a :: l) with ((pre ++ [a]) ++ l) by (rewrite <- app_assoc; reflexivity).
+  apply IH; [|assumption]. apply adm_ok_step; [assumption|]. destruct a; try exact I. exact Ha.
+Qed.
+
+Lemma admission_unique_proof l : resets_above_pending [] l -> unique_sender_nonce (adm_ops l).
+Proof.
+  intros Hr. assert (H0 : adm_ok []) by (split; [exact I|intros t []]).
+  apply (adm_ok_app l [] H0 Hr).
+Qed.
+
+(** without the assumption on Commit (a transaction stays in the application pool but is not
+    re-checked): the check state falls back to its sequence number and a second transaction with the
+    same (sender, nonce) is admitted *)
+Definition adm_norecheck : list adm :=
+  [AdmCheck 0 0 5; AdmCheck 0 1 5; AdmRemove 0 0; AdmReset [(0, 1)]; AdmCheck 0 1 9].
+
+Lemma admission_without_recheck_witness :
+  adm_ops adm_norecheck = [Insert 0 0 5; Insert 0 1 5; Remove 0 0; Insert 0 1 9] /\
+  ~ resets_above_pending [] adm_norecheck /\ ~ unique_sender_nonce (adm_ops adm_norecheck).
+Proof.
+  split; [reflexivity|]. split.
+  - intros [_ [_ [_ [H _]]]]. specialize (H (0, 1, 5) (or_introl eq_refl)). vm_compute in H. discriminate.
+  - intros [_ [_ [_ [H _]]]]. apply H. vm_compute. now left.
+Qed.
+
+(** ** Iterator invalidation: Remove interleaved with an open iterator *)
+(** removing the transaction the iterator has just yielded resets the sender-index element its cursor
+    holds: the sender's remaining transactions are never yielded, the iteration ends with a pending
+    transaction left out *)
+Definition interleave_truncated : list aop :=
+  [AInsert 1 0 9; AInsert 1 1 9; AInsert 2 0 5; AOpen; ARemove 1 0; ANext; ANext].
+Lemma interleaved_remove_truncates_witness :
+  (exists it, a_it (arun default_cfg (firstn 4 interleave_truncated)) = SAt it /\ it_tx it = (1, 0)) /\
+  (exists it, a_it (arun default_cfg (firstn 6 interleave_truncated)) = SAt it /\ it_tx it = (2, 0)) /\
+  a_it (arun default_cfg interleave_truncated) = SDone /\
+  map key_tx (pidx (a_st (arun default_cfg interleave_truncated))) = [(1, 1, 9); (2, 0, 5)].
+Proof. split; [eexists; split; reflexivity|]. split; [eexists; split; reflexivity|]. split; reflexivity. Qed.
+
+(** the iterator stands on the index node of a LATER transaction of the sender while it yields the
+    earlier ones; removing that later transaction resets the node (its Next() is nil) while the cached
+    nextPriority still equals the sender's next priority: Next() dereferences priorityNode.Next() == nil —
+    one sender, every priority above MinInt64, no duplicate *)
+Definition interleave_panics : list aop :=
+  [AInsert 1 0 9; AInsert 1 1 9; AInsert 1 2 9; AOpen; ARemove 1 2; ANext].
+Lemma interleaved_remove_panics_witness :
+  (exists it, a_it (arun default_cfg (firstn 4 interleave_panics)) = SAt it /\ it_tx it = (1, 0)) /\
+  a_it (arun default_cfg interleave_panics) = SPanic.
+Proof. split; [eexists; split; reflexivity|reflexivity]. Qed.
+
+(** ** Translator gates of the second round *)
+Lemma gen_api_shapes :
+  Gen.C19.exported_api = ["DefaultPriorityMempool"; "DefaultPriorityNonceMempoolConfig"; "IsEmpty"; "NewDefaultTxPriority";
+    "NewPriorityMempool"; "PriorityNonceIterator.Next"; "PriorityNonceIterator.Tx"; "PriorityNonceMempool.CountTx";
+    "PriorityNonceMempool.Insert"; "PriorityNonceMempool.NextSenderTx"; "PriorityNonceMempool.Remove";
+    "PriorityNonceMempool.Select"]%string /\
+  Gen.C19.config_fields = ["TxPriority TxPriority[C]"; "OnRead func(tx sdk.Tx)";
+    "TxReplacement func(op, np C, oTx, nTx sdk.Tx) bool"; "MaxTx int"]%string /\
+  Gen.C19.on_read_uses = [] /\
+  Gen.C19.default_config_body = ["return PriorityNonceMempoolConfig[int64]{ TxPriority: NewDefaultTxPriority(), }"]%string /\
+  Gen.C19.default_mempool_body = ["return NewPriorityMempool(DefaultPriorityNonceMempoolConfig())"]%string /\
+  Gen.C19.app_wiring = ["bApp := baseapp.NewBaseApp(Name, logger, db, txConfig.TxDecoder(), baseAppOptions...)";
+    "nonceMempool := palomamempool.DefaultPriorityMempool()";
+    "abciPropHandler := baseapp.NewDefaultProposalHandler(nonceMempool, bApp)";
+    "bApp.SetMempool(nonceMempool)";
+    "bApp.SetPrepareProposal(abciPropHandler.PrepareProposalHandler())";
+    "bApp.SetProcessProposal(abciPropHandler.ProcessProposalHandler())"]%string /\
+  Gen.C19.library_pins = ["github.com/cometbft/cometbft v0.38.12"; "github.com/cosmos/cosmos-sdk v0.50.13";
+    "github.com/huandu/skiplist v1.2.0"]%string.
+Proof. repeat split; reflexivity. Qed.
+
+Lemma gen_api_effects :
+  Gen.C19.insert_conds = ["mp.cfg.MaxTx > 0 && mp.CountTx() >= mp.cfg.MaxTx"; "mp.cfg.MaxTx < 0"; "err != nil"; "len(sigs) == 0"; "!ok";
+    "txExists"; "mp.cfg.TxReplacement != nil && !mp.cfg.TxReplacement(oldScore.priority, priority, senderIndex.Get(key).Value.(sdk.Tx), tx)"]%string /\
+  Gen.C19.insert_effects = ["return sdkmempool.ErrMempoolTxMaxCapacity"; "return nil";
+    "sigs, err := tx.(signing.SigVerifiableTx).GetSignaturesV2()"; "return err";
+    "return fmt.Errorf(""tx must have at least one signer"")"; "sig := sigs[0]";
+    "sender := sdk.AccAddress(sig.PubKey.Address()).String()"; "priority := mp.cfg.TxPriority.GetTxPriority(ctx, tx)";
+    "nonce := sig.Sequence"; "key := txMeta[C]{nonce: nonce, priority: priority, sender: sender}";
+    "senderIndex, ok := mp.senderIndices[sender]";
+    "senderIndex = skiplist.New(skiplist.LessThanFunc(func(a, b any) int { return skiplist.Uint64.Compare(b.(txMeta[C]).nonce, a.(txMeta[C]).nonce) }))";
+    "mp.senderIndices[sender] = senderIndex"; "sk := txMeta[C]{nonce: nonce, sender: sender}";
+    "oldScore, txExists := mp.scores[sk]";
+    "return fmt.Errorf( ""tx doesn't fit the replacement rule, oldPriority: %v, newPriority: %v, oldTx: %v, newTx: %v"", oldScore.priority, priority, senderIndex.Get(key).Value.(sdk.Tx), tx, )";
+    "mp.priorityIndex.Remove(txMeta[C]{ nonce: nonce, sender: sender, priority: oldScore.priority, weight: oldScore.weight, })";
+    "mp.priorityCounts[oldScore.priority]--"; "mp.priorityCounts[priority]++";
+    "key.senderElement = senderIndex.Set(key, tx)"; "mp.scores[sk] = txMeta[C]{priority: priority}";
+    "mp.priorityIndex.Set(key, tx)"; "return nil"]%string /\
+  Gen.C19.remove_conds = ["err != nil"; "len(sigs) == 0"; "!ok"; "!ok"]%string /\
+  Gen.C19.remove_effects = ["sigs, err := tx.(signing.SigVerifiableTx).GetSignaturesV2()"; "return err";
+    "return fmt.Errorf(""attempted to remove a tx with no signatures"")"; "sig := sigs[0]";
+    "sender := sdk.AccAddress(sig.PubKey.Address()).String()"; "nonce := sig.Sequence";
+    "scoreKey := txMeta[C]{nonce: nonce, sender: sender}"; "score, ok := mp.scores[scoreKey]";
+    "return sdkmempool.ErrTxNotFound";
+    "tk := txMeta[C]{nonce: nonce, priority: score.priority, sender: sender, weight: score.weight}";
+    "senderTxs, ok := mp.senderIndices[sender]"; "return fmt.Errorf(""sender %s not found"", sender)";
+    "mp.priorityIndex.Remove(tk)"; "senderTxs.Remove(tk)"; "delete(mp.scores, scoreKey)";
+    "mp.priorityCounts[score.priority]--"; "return nil"]%string /\
+  Gen.C19.reorder_effects = ["node := mp.priorityIndex.Front()"; "key := node.Key().(txMeta[C])"; "newKey := key";
+    "newKey.weight = senderWeight(mp.cfg.TxPriority, key.senderElement)";
+    "reordering = append(reordering, reorderKey[C]{deleteKey: key, insertKey: newKey, tx: node.Value.(sdk.Tx)})";
+    "node = node.Next()"; "mp.priorityIndex.Remove(k.deleteKey)";
+    "delete(mp.scores, txMeta[C]{nonce: k.deleteKey.nonce, sender: k.deleteKey.sender})";
+    "mp.priorityIndex.Set(k.insertKey, k.tx)";
+    "mp.scores[txMeta[C]{nonce: k.insertKey.nonce, sender: k.insertKey.sender}] = k.insertKey"]%string /\
+  Gen.C19.select_conds = ["mp.priorityIndex.Len() == 0"]%string /\
+  Gen.C19.select_effects = ["return nil"; "mp.reorderPriorityTies()";
+    "iterator := &PriorityNonceIterator[C]{ mempool: mp, senderCursors: make(map[string]*skiplist.Element), }";
+    "return iterator.iteratePriority()"]%string /\
+  Gen.C19.tx_effects = ["return i.senderCursors[i.sender].Value.(sdk.Tx)"]%string /\
+  Gen.C19.is_empty_conds = ["mp.priorityIndex.Len() != 0"; "mp.priorityCounts[k] != 0"; "mp.senderIndices[k].Len() != 0"]%string.
+Proof. repeat split; reflexivity. Qed.
+
+(** NextSenderTx: the source as it is (no nil guard: [next_sender_nil_guard = false]) or with the guard *)
+Lemma gen_next_sender_tx :
+  (Gen.C19.next_sender_tx_conds = ["!ok"]%string /\
+   Gen.C19.next_sender_tx_effects = ["senderIndex, ok := mp.senderIndices[sender]"; "return nil"; "cursor := senderIndex.Front()";
+     "return cursor.Value.(sdk.Tx)"]%string /\ next_sender_nil_guard = false) \/
+  (Gen.C19.next_sender_tx_conds = ["!ok"; "cursor == nil"]%string /\
+   Gen.C19.next_sender_tx_effects = ["senderIndex, ok := mp.senderIndices[sender]"; "return nil"; "cursor := senderIndex.Front()";
+     "return nil"; "return cursor.Value.(sdk.Tx)"]%string /\ next_sender_nil_guard = true).
+Proof. first [left; repeat split; reflexivity | right; repeat split; reflexivity]. Qed.
+
+(** ** The iterator advanced one Next() at a time, iterated to the end, is [walk] (= what the first
+    round's theorems are about) *)
+
+Lemma aset_aset_same {V} (s : Z) (v1 v2 : V) m : aset Z.eqb s v2 (aset Z.eqb s v1 m) = aset Z.eqb s v2 m.
+Proof.
+  induction m as [|[k v] m IH]; simpl.
+  - now rewrite Z.eqb_refl.
+  - destruct (Z.eqb_spec s k) as [->|Hne]; simpl.
+    + now rewrite Z.eqb_refl.
+    + destruct (Z.eqb_spec s k); [contradiction|]. now rewrite IH.
+Qed.
+
+Lemma after_key_split pre k rest : NoDup (pre ++ k :: rest) -> after_key k (pre ++ k :: rest) = rest.
+Proof.
+  induction pre as [|h pre IH]; simpl; intros ND.
+  - now rewrite key_cmp_refl.
+  - inversion ND as [|? ? Hn ND']; subst.
+    destruct (key_cmp k h) eqn:E; [|now apply IH|now apply IH].
+    apply key_cmp_eq in E. subst h. exfalso. apply Hn. apply in_or_app. right. now left.
+Qed.
+
+Lemma sl_after_split a n p r : ssorted (a ++ (n, p) :: r) -> sl_after n (a ++ (n, p) :: r) = r.
+Proof.
+  induction a as [|[n' p'] a IH]; simpl; intros HS.
+  - now rewrite Z.eqb_refl.
+  - inversion HS as [|? ? HS' HF]; subst. destruct (Z.eqb_spec n n') as [->|Hne]; [|now apply IH].
+    exfalso. rewrite Forall_forall in HF. assert (Hi : In (n', p) (a ++ (n', p) :: r)) by (apply in_or_app; right; now left).
+    specialize (HF _ Hi). unfold slt in HF. simpl in HF. lia.
+Qed.
+
+(** the walk's "remaining list per sender" against the iterator's cursors *)
+Definition crel (st : state) (cw : list (Z * slist)) (cs : list (Z * (Z * bool))) : Prop :=
+  forall s, exists a, sget s (sidx st) = a ++ sget s cw /\
+    match aget Z.eqb s cs with
+    | None => a = []
+    | Some (n, d) => d = false /\ exists p a0, a = a0 ++ [(n, p)]
+    end.
+
+Lemma crel_cursor_next st cw cs s :
+  (forall s, ssorted (sget s (sidx st))) -> crel st cw cs -> cursor_next st cs s = hd_error (sget s cw).
+Proof.
+  intros HS HC. destruct (HC s) as [a [Ea Hm]]. unfold cursor_next.
+  destruct (aget Z.eqb s cs) as [[n d]|].
+  - destruct Hm as [-> [p [a0 ->]]]. rewrite Ea. rewrite <- app_assoc. simpl.
+    rewrite sl_after_split; [reflexivity|]. specialize (HS s). rewrite Ea, <- app_assoc in HS. exact HS.
+  - subst a. now rewrite Ea.
+Qed.
+
+Lemma crel_same st cw cs s l : crel st cw cs -> sget s cw = l -> crel st (aset Z.eqb s l cw) cs.
+Proof.
+  intros HC El s'. destruct (Z.eq_dec s' s) as [->|Hne].
+  - rewrite sget_aset_same, <- El. apply HC.
+  - rewrite sget_aset_other by assumption. apply HC.
+Qed.
+
+Lemma crel_yield st cw cs s n p r :
+  crel st cw cs -> sget s cw = (n, p) :: r -> crel st (aset Z.eqb s r cw) (aset Z.eqb s (n, false) cs).
+Proof.
+  intros HC El s'. destruct (Z.eq_dec s' s) as [->|Hne].
+  - rewrite sget_aset_same, (aget_aset_same Z.eqb Z.eqb_spec).
+    destruct (HC s) as [a [Ea _]]. rewrite El in Ea. exists (a ++ [(n, p)]). split.
+    + rewrite <- app_assoc. exact Ea.
+    + split; [reflexivity|]. eauto.
+  - rewrite sget_aset_other by assumption. rewrite (aget_aset_other Z.eqb Z.eqb_spec) by assumption. apply HC.
+Qed.
+
+(** the decision of Next() for the sender-index element (n, p), shared by [drain] and [try_sender] *)
+Definition decide (sc : list ((Z * Z) * (Z * Z))) (s n p : Z) (nn : option key) : tres :=
+  let np := match nn with Some k => k_prio k | None => min_value end in
+  if p <? np then TDefer
+  else if p =? np then
+    match nn with
+    | None => TPanic
+    | Some k2 => if snd (score_get s n sc) <? k_weight k2 then TDefer else TYield n
+    end
+  else TYield n.
+
+Lemma drain_decide s nn sc n p r :
+  drain s nn sc ((n, p) :: r) =
+  match decide sc s n p nn with
+  | TDefer => ([], (n, p) :: r, false)
+  | TPanic => ([], (n, p) :: r, true)
+  | TYield _ => let '(o, rem, pn) := drain s nn sc r in ((n, p) :: o, rem, pn)
+  end.
+Proof.
+  cbn [drain]. unfold decide. destruct (p <? _); [reflexivity|].
+  destruct (p =? _); [|reflexivity]. destruct nn as [k2|]; [|reflexivity].
+  destruct (snd (score_get s n sc) <? k_weight k2); reflexivity.
+Qed.
+
+Lemma walk_cons sc k rest cur :
+  walk sc (k :: rest) cur =
+  let '(o, rem, pn) := drain (k_sender k) (hd_error rest) sc (sget (k_sender k) cur) in
+  if pn then (tag (k_sender k) o, true)
+  else let '(o2, pn2) := walk sc rest (aset Z.eqb (k_sender k) rem cur) in (tag (k_sender k) o ++ o2, pn2).
+Proof. reflexivity. Qed.
+
+Lemma walk_cons_nil sc k rest cw :
+  sget (k_sender k) cw = [] -> walk sc (k :: rest) cw = walk sc rest (aset Z.eqb (k_sender k) [] cw).
+Proof. intros El. rewrite walk_cons, El. cbn [drain]. destruct (walk sc rest _). reflexivity. Qed.
+
+Lemma walk_cons_defer sc k rest cw n p r :
+  sget (k_sender k) cw = (n, p) :: r -> decide sc (k_sender k) n p (hd_error rest) = TDefer ->
+  walk sc (k :: rest) cw = walk sc rest (aset Z.eqb (k_sender k) ((n, p) :: r) cw).
+Proof. intros El Ed. rewrite walk_cons, El, drain_decide, Ed. destruct (walk sc rest _). reflexivity. Qed.
+
+Lemma walk_cons_panic sc k rest cw n p r :
+  sget (k_sender k) cw = (n, p) :: r -> decide sc (k_sender k) n p (hd_error rest) = TPanic ->
+  walk sc (k :: rest) cw = ([], true).
+Proof. intros El Ed. rewrite walk_cons, El, drain_decide, Ed. reflexivity. Qed.
+
+Lemma walk_cons_yield sc k rest cw n p r m :
+  sget (k_sender k) cw = (n, p) :: r -> decide sc (k_sender k) n p (hd_error rest) = TYield m ->
+  walk sc (k :: rest) cw =
+  ((k_sender k, n, p) :: fst (walk sc (k :: rest) (aset Z.eqb (k_sender k) r cw)),
+   snd (walk sc (k :: rest) (aset Z.eqb (k_sender k) r cw))).
+Proof.
+  intros El Ed. rewrite !walk_cons, El, drain_decide, Ed, sget_aset_same.
+  destruct (drain (k_sender k) (hd_error rest) sc r) as [[o rem] pn]. rewrite aset_aset_same.
+  destruct pn; [reflexivity|]. destruct (walk sc rest _). reflexivity.
+Qed.
+
+Section IterEq.
+  Variable st : state.
+  Hypothesis HND : NoDup (pidx st).
+  Hypothesis HSS : forall s, ssorted (sget s (sidx st)).
+
+  Let sc := scores st.
+
+  Definition nextp_of (rest : list key) : Z := match rest with k2 :: _ => k_prio k2 | [] => min_value end.
+
+  Lemma try_sender_decide cw cs s rest n p r :
+    crel st cw cs -> sget s cw = (n, p) :: r ->
+    try_sender st cs s (nextp_of rest) (hd_error rest) = decide sc s n p (hd_error rest).
+  Proof.
+    intros HC El. unfold try_sender, decide. rewrite (crel_cursor_next _ _ _ s HSS HC), El. cbn [hd_error].
+    destruct rest; reflexivity.
+  Qed.
+
+  Lemma try_sender_nil cw cs s rest :
+    crel st cw cs -> sget s cw = [] -> try_sender st cs s (nextp_of rest) (hd_error rest) = TDefer.
+  Proof. intros HC El. unfold try_sender. now rewrite (crel_cursor_next _ _ _ s HSS HC), El. Qed.
+
+  Lemma advance_cons cs k rest :
+    advance st cs (k :: rest) =
+    match try_sender st cs (k_sender k) (nextp_of rest) (hd_error rest) with
+    | TYield n => SAt (mkIter k false (aset Z.eqb (k_sender k) (n, false) cs) (nextp_of rest))
+    | TPanic => SPanic
+    | TDefer => advance st cs rest
+    end.
+  Proof. reflexivity. Qed.
+
+  Lemma it_next_resume pre k rest cs :
+    pidx st = pre ++ k :: rest ->
+    it_next st (mkIter k false cs (nextp_of rest)) = advance st cs (k :: rest).
+  Proof.
+    intros Ep. rewrite advance_cons. unfold it_next, node_rest. cbn [it_dead it_node it_cur it_nextp].
+    rewrite Ep, after_key_split by (rewrite <- Ep; exact HND).
+    destruct (try_sender st cs (k_sender k) (nextp_of rest) (hd_error rest)); reflexivity.
+  Qed.
+
+  Lemma walk_eq_iter : forall pi pre cw cs fuel,
+    pidx st = pre ++ pi -> crel st cw cs ->
+    (List.length (fst (walk sc pi cw)) <= fuel)%nat ->
+    collect fuel st (advance st cs pi) = (map tx_sn (fst (walk sc pi cw)), snd (walk sc pi cw)).
+  Proof.
+    induction pi as [|k rest IH]; intros pre cw cs fuel Ep HC Hf.
+    - simpl. destruct fuel; reflexivity.
+    - assert (Epr : pidx st = (pre ++ [k]) ++ rest) by (rewrite <- app_assoc; exact Ep).
+      remember (sget (k_sender k) cw) as l eqn:El. symmetry in El.
+      revert cw cs fuel HC Hf El.
+      induction l as [|[n p] r IHl]; intros cw cs fuel HC Hf El.
+      + rewrite (walk_cons_nil _ _ _ _ El) in Hf |- *. rewrite advance_cons, (try_sender_nil _ _ _ _ HC El).
+        apply (IH _ _ _ _ Epr (crel_same _ _ _ _ _ HC El) Hf).
+      + rewrite advance_cons, (try_sender_decide _ _ _ _ _ _ _ HC El).
+        destruct (decide sc (k_sender k) n p (hd_error rest)) as [m| |] eqn:Ed.
+        * (* yield *)
+          assert (Em : m = n).
+          { unfold decide in Ed. destruct (p <? _); [discriminate|]. destruct (p =? _).
+            - destruct (hd_error rest); [|discriminate]. destruct (_ <? _); [discriminate|]. now inversion Ed.
+            - now inversion Ed. }
+          subst m. rewrite (walk_cons_yield _ _ _ _ _ _ _ _ El Ed) in Hf |- *. cbn [fst snd] in Hf |- *.
+          destruct fuel as [|f]; [cbn [List.length] in Hf; lia|]. cbn [collect].
+          rewrite (it_next_resume pre k rest _ Ep).
+          assert (Etx : it_tx (mkIter k false (aset Z.eqb (k_sender k) (n, false) cs) (nextp_of rest)) = (k_sender k, n)).
+          { unfold it_tx. cbn [it_node it_cur]. now rewrite (aget_aset_same Z.eqb Z.eqb_spec). }
+          rewrite Etx.
+          rewrite (IHl (aset Z.eqb (k_sender k) r cw) (aset Z.eqb (k_sender k) (n, false) cs) f
+                       (crel_yield _ _ _ _ _ _ _ HC El)); [reflexivity| |apply sget_aset_same].
+          cbn [List.length] in Hf. apply le_S_n. exact Hf.
+        * (* deferred *)
+          rewrite (walk_cons_defer _ _ _ _ _ _ _ El Ed) in Hf |- *.
+          apply (IH _ _ _ _ Epr (crel_same _ _ _ _ _ HC El) Hf).
+        * (* nil dereference *)
+          rewrite (walk_cons_panic _ _ _ _ _ _ _ El Ed). destruct fuel; reflexivity.
+  Qed.
+End IterEq.
+
+Lemma iteration_eq_select_st st pd fuel :
+  GInv st pd -> (List.length pd <= fuel)%nat ->
+  fst (it_open st) = fst (select_op st) /\
+  collect fuel (fst (it_open st)) (snd (it_open st)) = (map tx_sn (select st), select_panics st).
+Proof.
+  intros HG Hf. unfold it_open, select, select_panics, select_op.
+  destruct (pidx st) eqn:E.
+  - split; [reflexivity|]. simpl. destruct fuel; reflexivity.
+  - cbn [fst snd]. split; [reflexivity|]. pose proof (GInv_reorder _ _ HG) as HG'.
+    pose proof (select_sound_st _ _ HG) as [HND [Hin _]].
+    apply (walk_eq_iter (reorder st) (psorted_NoDup _ (g_sorted _ _ HG')) (g_sget_sorted _ _ HG') (pidx (reorder st)) []);
+      [reflexivity|intros s; exists []; split; reflexivity|].
+    (* at most |pending| transactions are yielded *)
+    assert (Hsel : fst (walk (scores (reorder st)) (pidx (reorder st)) (sidx (reorder st))) = select st).
+    { unfold select, select_op. now rewrite E. }
+    rewrite Hsel. eapply Nat.le_trans; [|exact Hf].
+    rewrite <- (map_length tx_sn (select st)), <- (map_length tx_sn pd).
+    apply NoDup_incl_length; [assumption|]. intros x Hx. apply in_map_iff in Hx. destruct Hx as [t [<- Ht]]. now apply Hin.
+Qed.
+
+Lemma iteration_eq_select_proof c ops :
+  fst (it_open (runc c ops)) = fst (select_op (runc c ops)) /\
+  collect (List.length (pendc c ops)) (fst (it_open (runc c ops))) (snd (it_open (runc c ops)))
+    = (map tx_sn (select (runc c ops)), select_panics (runc c ops)).
+Proof. apply iteration_eq_select_st with (pd := pendc c ops); [apply GInv_runc|lia]. Qed.
+
+Lemma gen_api_effects_summary :
+  (nth 5 Gen.C19.insert_effects "" = "sig := sigs[0]" /\ nth 3 Gen.C19.remove_effects "" = "sig := sigs[0]" /\
+   nth 8 Gen.C19.insert_effects "" = "nonce := sig.Sequence" /\
+   nth 6 Gen.C19.insert_effects "" = "sender := sdk.AccAddress(sig.PubKey.Address()).String()")%string /\
+  Gen.C19.insert_conds = ["mp.cfg.MaxTx > 0 && mp.CountTx() >= mp.cfg.MaxTx"; "mp.cfg.MaxTx < 0"; "err != nil"; "len(sigs) == 0"; "!ok";
+    "txExists"; "mp.cfg.TxReplacement != nil && !mp.cfg.TxReplacement(oldScore.priority, priority, senderIndex.Get(key).Value.(sdk.Tx), tx)"]%string /\
+  Gen.C19.remove_conds = ["err != nil"; "len(sigs) == 0"; "!ok"; "!ok"]%string /\
+  Gen.C19.select_conds = ["mp.priorityIndex.Len() == 0"]%string /\
+  Gen.C19.is_empty_conds = ["mp.priorityIndex.Len() != 0"; "mp.priorityCounts[k] != 0"; "mp.senderIndices[k].Len() != 0"]%string /\
+  Gen.C19.tx_effects = ["return i.senderCursors[i.sender].Value.(sdk.Tx)"]%string /\
+  List.length Gen.C19.insert_effects = 23%nat /\ List.length Gen.C19.remove_effects = 17%nat /\
+  List.length Gen.C19.reorder_effects = 10%nat /\ List.length Gen.C19.select_effects = 4%nat.
+Proof.
+  pose proof gen_api_effects as [H1 [H2 [H3 [H4 [H5 [H6 [H7 [H8 H9]]]]]]]].
+  rewrite H1, H2, H3, H4, H5, H6, H7, H8, H9. repeat split; reflexivity.
+Qed.
